@@ -7,7 +7,7 @@ use momtrop::vector::Vector;
 use serde::{Deserialize, Serialize};
 use std::time::Instant;
 
-pub const RULE: &str = "cases = dimension D=1..8, two vectors and a scalar whose components are drawn from all finite f64 (uniform bit patterns, +-0, subnormals, 1e+-300, small integers, ordinary reals), an isize (small, +-2^53 neighbourhood, extremes) and a scalar argument for the f64 trait functions (general classes, every magnitude on a log scale, |x| in [690,760] where exp leaves the normal range, +-32 ulps around 0, 1, pi/2, pi, 2pi, 1e22 and the under/overflow thresholds of exp). oracle: plain-array IEEE reference compared by bit pattern (NaN == NaN): +, -, *T, *&T, +=, dot (left fold from index 0 starting at +0), squared == dot(v,v), dot symmetry, from_array/from_vec/from_slice/get_elements/Index/IndexMut/new/new_from_num/zero/len; f64 as MomTropFloat: inv == 1/x, from_isize exact up to 2^53 (checked through an i128 round trip) and correctly rounded beyond, PI/zero/one/abs/sqrt/ln/exp/sin/cos/powf/to_f64/from_f64 against std. non-trivial = D not in {2,3} or a component that is non-integer or of magnitude outside [1e-3,1e3]; distinct = distinct case encodings";
+pub const RULE: &str = "cases = dimension D=1..8, two vectors and a scalar whose components are drawn from all finite f64 (uniform bit patterns, +-0, subnormals, 1e+-300, small integers, ordinary reals), an isize (small, +-2^53 neighbourhood, extremes) and a scalar argument for the f64 trait functions (general classes, every magnitude on a log scale, |x| in [690,760] where exp leaves the normal range, +-32 ulps around 0, 1, pi/2, pi, 2pi, 1e22 and the under/overflow thresholds of exp). oracle: plain-array IEEE reference compared by bit pattern (NaN == NaN): +, -, *T, *&T, +=, a chain of eight operations (+=, -, *s, IndexMut) on one vector object, dot (left fold from index 0 starting at +0), squared == dot(v,v), dot symmetry, from_array/from_vec/from_slice/get_elements/Index/IndexMut/new/new_from_num/zero/len; f64 as MomTropFloat: inv == 1/x, from_isize exact up to 2^53 (checked through an i128 round trip) and correctly rounded beyond, PI/zero/one/abs/sqrt/ln/exp/sin/cos/powf/to_f64/from_f64 against std. non-trivial = D not in {2,3} or a component that is non-integer or of magnitude outside [1e-3,1e3]; distinct = distinct case encodings";
 
 #[derive(Clone, Debug, Serialize, Deserialize)]
 pub struct Case {
@@ -143,6 +143,55 @@ fn check_d<const D: usize>(c: &Case, ctx: &mut Ctx) -> Result<(), Failure> {
         eqb!("mul-scalar", sc1[i], a[i] * s, "(a*s)[{i}] a={:e} s={s:e}", a[i]);
         eqb!("mul-scalar-ref", sc2[i], a[i] * s, "(a*&s)[{i}] a={:e} s={s:e}", a[i]);
         eqb!("add-assign", acc[i], a[i] + b[i], "(a+=b)[{i}]");
+    }
+    // operation HISTORIES on one vector object: a value of the type carries nothing but its components, so a chain of
+    // += / + / - / * / IndexMut on the same object must follow the componentwise IEEE chain bit for bit
+    {
+        let mut v = va;
+        let mut r = a;
+        let steps = [0u8, 1, 0, 2, 0, 3, 1, 0];
+        for (k, st) in steps.iter().enumerate() {
+            match st {
+                0 => {
+                    v += if k % 4 == 0 { vb } else { &vb * s };
+                    for i in 0..D {
+                        r[i] = r[i] + if k % 4 == 0 { b[i] } else { b[i] * s };
+                    }
+                }
+                1 => {
+                    v = &v - &va;
+                    for i in 0..D {
+                        r[i] = r[i] - a[i];
+                    }
+                }
+                2 => {
+                    v = &v * s;
+                    for i in 0..D {
+                        r[i] = r[i] * s;
+                    }
+                }
+                _ => {
+                    v[0] = b[0];
+                    r[0] = b[0];
+                }
+            }
+            for i in 0..D {
+                eqb!("operation-history", v[i], r[i], "component {i} after step {k} of the chain += , -, +=, *s, +=, [0]=, -, += on one vector (a={a:?}, b={b:?}, s={s:e})");
+            }
+        }
+        // and a copy taken in the middle of a chain behaves like a fresh vector with the same components
+        let mut w = va;
+        w += vb;
+        let mut w2 = w;
+        w2 += vb;
+        let fresh = {
+            let mut f = Vector::<f64, D>::from_array(std::array::from_fn(|i| a[i] + b[i]));
+            f += vb;
+            f
+        };
+        for i in 0..D {
+            eqb!("operation-history", w2[i], fresh[i], "copy of a vector after one += then += again, vs a fresh vector with the same components, [{i}]");
+        }
     }
     let mut dot = 0.0f64;
     let mut sq = 0.0f64;
